@@ -30,7 +30,7 @@ def fn_of_ref(e):
 
 def run(prog, rep):
     rep.rule("C11.1", "dispatch table: every PCryptoHashType enumerator has a case whose six slots come from one algorithm unit, a variant-specific constructor, the standard digest length (not larger than the state array); the range test covers exactly the enumerators")
-    rep.rule("C11.2", "dispatcher typestate: update runs only while open; finish runs only while open and is followed by closed=TRUE before the digest is read; reset reopens; get_digest writes only after hash_len <= *len")
+    rep.rule("C11.2", "dispatcher typestate: update runs only while open; finish runs only while open, the digest is read only from a finished state and every exit after finish leaves closed=TRUE; reset reopens; get_digest writes only after hash_len <= *len")
     rep.rule("C11.3", "hex encoding: table 0123456789abcdef, hash_len iterations writing high then low nibble at 2i and 2i+1, zero-filled buffer of 2*hash_len+1 bytes")
     rep.rule("C11.4", "full-width length: the psize length of an update is never compared or accumulated through a narrowing conversion unless its high part is accounted as well")
     rep.rule("C11.5", "buffer geometry: the block size used for the fill level mask, the fill test, the whole-block loop and the copies equals the byte size of the block buffer; the padding constants satisfy the standard's identity")
@@ -174,21 +174,85 @@ def run(prog, rep):
     ok = bool(f) and all(open_known(x[0], hp) for x in f)
     rep.ob("C11.2", up, "update", ok, "the algorithm's update runs only with closed tested false" if ok else
            "update reaches the algorithm after the digest was finished (closed not tested): bytes are hashed into a finalised state", up.loc[0])
+    # the digest slot of every algorithm returns the address of an array embedded in the context: it cannot be NULL for the
+    # non-NULL context the object holds, so a "digest == NULL" exit is not a path on which the object is left in any state
+    dig_nonnull = True
+    dig_fns = sorted(set(v_[0].get("digest") for v_ in cases.values() if v_[0].get("digest")))
+    for dname in dig_fns:
+        au = prog.unit(algo_fn[dname]) if dname in algo_fn else None
+        dfn = au.fn(dname) if au else None
+        okn = dfn is not None and bool(dfn.returns())
+        for (b, i, r) in (dfn.returns() if dfn else []):
+            e = strip_casts(r.get("e"))
+            rec = au.records.get(e.get("rec")) if (e is not None and e["k"] == "member") else None
+            f = rec.field(e["field"]) if rec else None
+            if not (f is not None and "[" in (f.get("ts") or "") and root_var(e) == dfn.param_names()[0]):
+                okn = False
+        if not okn:
+            dig_nonnull = False
+
+    def finish_flow(fn):
+        """per path: was finish called, was closed stored, which variable holds the digest pointer"""
+        digs, exits, fins = [], [], []
+
+        def on_stmt(st, b, i, stmt):
+            facts, closed_set, finished, dvar = st
+            for n in walk(stmt):
+                if n["k"] == "call" and slot_pred("finish")(n):
+                    fins.append((facts, closed_set))
+                    finished = True
+                if n["k"] == "call" and slot_pred("digest")(n):
+                    digs.append((facts, finished))
+                if n["k"] == "asg":
+                    l = strip_casts(n["l"])
+                    if l is not None and l["k"] == "member" and l["field"] == "closed":
+                        closed_set = cv(n["r"])
+                    r = strip_casts(n["r"])
+                    if l is not None and l["k"] == "ref" and r is not None and r["k"] == "call" and slot_pred("digest")(r):
+                        dvar = l["name"]
+            if stmt.get("k") == "decl" and stmt.get("init") is not None:
+                r = strip_casts(stmt["init"])
+                if r is not None and r["k"] == "call" and slot_pred("digest")(r):
+                    dvar = stmt.get("name")
+            if stmt.get("k") == "ret":
+                exits.append((guards.transfer(facts, stmt), closed_set, finished, dvar, flow.witness_lines(*flow.cur), line(stmt)))
+            return [(guards.transfer(facts, stmt), closed_set, finished, dvar)]
+
+        def on_edge(st, b, to, on):
+            f2 = guards.edge_assume(st[0], b, on)
+            if f2 is not None and to == fn.exit and not (b.stmts and b.stmts[-1].get("k") == "ret"):
+                exits.append((f2, st[1], st[2], st[3], flow.witness_lines(*flow.cur), fn.loc[0]))
+            return None if f2 is None else (f2,) + st[1:]
+        flow = Flow(fn, [(guards.EMPTY, None, False, None)], on_stmt, on_edge)
+        flow.run()
+        return fins, digs, exits
+
     for gname in ("p_crypto_hash_get_string", "p_crypto_hash_get_digest"):
         g = hu.fn(gname)
         hp = g.param_names()[0]
-        fin = facts_at(g, slot_pred("finish"))
-        dig = facts_at(g, slot_pred("digest"))
-        ok = bool(fin) and all(open_known(x[0], hp) for x in fin)
+        fins, digs, exits = finish_flow(g)
+        ok = bool(fins) and all(open_known(x[0], hp) for x in fins)
         msg = "finish is called on an already finished hash (reading the digest twice changes it)" if not ok else ""
-        # at the digest call: either it was closed on entry, or finish ran and closed was set TRUE on this path
-        for (facts, c, closed_set, path) in dig:
-            was_closed = any(fk == "%s->closed" % hp and fop == "!=" and fv == 0 for (fk, fop, fv) in facts)
-            if not was_closed and closed_set != 1 and guards.lookup(facts, "%s->closed" % hp) != 1:
-                ok, msg = False, "the digest is read on a path where the hash was neither finished before nor marked closed after finish (a later update would be accepted)"
-        if not dig:
+        at = g.loc[0]
+        # the digest is read only from a finished state: closed on entry, or finish ran on this path
+        for (facts, finished) in digs:
+            was_closed = any(fk == "%s->closed" % hp and fop == "!=" and fv == 0 for (fk, fop, fv) in facts) or guards.lookup(facts, "%s->closed" % hp) == 1
+            if not was_closed and not finished:
+                ok, msg = False, "the digest is read on a path where the hash was neither finished before nor finished now"
+        # every way out of the call after finish ran leaves the object marked closed (a later read would finish a second
+        # time, a later update would be hashed into a finalised state)
+        for (facts, closed_set, finished, dvar, path, ln) in exits:
+            if not finished or closed_set == 1:
+                continue
+            if dig_nonnull and dvar is not None and guards.lookup(facts, dvar) == 0:
+                continue        # exit taken only for a NULL digest pointer, which the algorithms never return
+            ok, at = False, ln
+            msg = "line %d: the call returns after finish ran without the hash being marked closed (path %s): the next read finishes again and an update is hashed into the finalised state" % (ln, " -> ".join(path[-6:]))
+        if not digs:
             ok, msg = False, "the digest slot is never read"
-        rep.ob("C11.2", g, "finish-once", ok, "finish runs only while open and marks the hash closed before the digest is read" if ok else msg, g.loc[0])
+        rep.ob("C11.2", g, "finish-once", ok, "finish runs only while open, the digest is read only from a finished state, and every exit after finish leaves the hash marked closed" if ok else msg, at)
+    rep.ob("C11.2", nw, "digest:nonnull", bool(dig_fns) and dig_nonnull, "the %d digest slots return the address of an array embedded in the context (never NULL)" % len(dig_fns) if (dig_fns and dig_nonnull) else
+           "a digest slot may return something other than an array embedded in its context: the NULL-digest exits of the readers are then real", hu.fn("p_crypto_hash_new").loc[0])
     rs = hu.fn("p_crypto_hash_reset")
     rsl = [x for x in slot_calls(rs) if x[3] == "reset"]
     st = [n for (b, i, n) in rs.nodes() if n["k"] == "asg" and strip_casts(n["l"])["k"] == "member" and strip_casts(n["l"])["field"] == "closed" and cv(n["r"]) == 0]
@@ -208,7 +272,7 @@ def run(prog, rep):
             okb = False
     rep.ob("C11.2", gd, "digest:bound", okb, "the digest is copied out only after hash_len <= *len was established, and exactly hash_len bytes" if okb else
            "get_digest copies into the caller's buffer without hash_len <= *len established (or a different number of bytes)", gd.loc[0])
-    rep.floor("C11.2", 5)
+    rep.floor("C11.2", 6)
 
     # ---- C11.3 hex -----------------------------------------------------------------------
     tbl = hu.globals.get("pp_crypto_hash_hex_str")
